@@ -14,13 +14,36 @@ Theorem C15_other_methods : forall m ct, m <> "GET" -> m <> "HEAD" -> http_sourc
 Proof. exact other_methods. Qed.
 Print Assumptions C15_other_methods.
 
-Theorem C15_json_iff : forall m ct, http_source m ct = SrcJSON <-> (m <> "GET" /\ m <> "HEAD" /\ before_semi ct = "application/json").
+(** JSON (form) is chosen exactly when the media type is application/json (x-www-form-urlencoded),
+    [media_is]: compared case-insensitively after trimming white space. *)
+Theorem C15_json_iff : forall m ct, http_source m ct = SrcJSON <-> (m <> "GET" /\ m <> "HEAD" /\ media_is "application/json" (before_semi ct) = true).
 Proof. exact source_json_iff. Qed.
 Print Assumptions C15_json_iff.
 
-Theorem C15_form_iff : forall m ct, http_source m ct = SrcForm <-> (m <> "GET" /\ m <> "HEAD" /\ before_semi ct = "application/x-www-form-urlencoded").
+Theorem C15_form_iff : forall m ct, http_source m ct = SrcForm <->
+  (m <> "GET" /\ m <> "HEAD" /\ media_is "application/json" (before_semi ct) = false
+   /\ media_is "application/x-www-form-urlencoded" (before_semi ct) = true).
 Proof. exact source_form_iff. Qed.
 Print Assumptions C15_form_iff.
+
+(** every spelling of a media type that RFC 9110 allows is recognised: any case, white space around it *)
+Theorem C15_media_type_every_spelling : forall t l core r,
+  starts_visible t = true -> ws_only l = true -> ws_only r = true -> lower_str core = t ->
+  media_is t (l ++ core ++ r) = true.
+Proof. exact media_is_accepts_every_spelling. Qed.
+Print Assumptions C15_media_type_every_spelling.
+
+(** and among ASCII texts nothing else is *)
+Theorem C15_media_type_only_spellings : forall t s, all_ascii s = true -> media_is t s = true ->
+  exists l core r, s = l ++ core ++ r /\ ws_only l = true /\ ws_only r = true /\ lower_str core = t.
+Proof. exact media_is_ascii_only_spellings. Qed.
+Print Assumptions C15_media_type_only_spellings.
+
+(** the dispatch as it was before the repair (byte-for-byte comparison) sent an RFC spelling to the query *)
+Theorem C15_legacy_dispatch_refuted : exists ct,
+  by_media_type_legacy (before_semi ct) = SrcQuery /\ by_media_type (before_semi ct) = SrcJSON.
+Proof. exact legacy_dispatch_refuted. Qed.
+Print Assumptions C15_legacy_dispatch_refuted.
 
 (** Parameters (charset, boundary, anything) after the media type are ignored — for all strings. *)
 Theorem C15_params_ignored : forall m mt ps, no_semi mt = true -> http_source m (mt ++ String ";"%char ps) = http_source m mt.
@@ -66,5 +89,6 @@ Print Assumptions C15_url_brackets.
 (** non-vacuity: a concrete Content-Type with parameters *)
 Example C15_example : http_source "POST" "application/json; charset=utf-8" = SrcJSON
                       /\ http_source "PUT" "application/x-www-form-urlencoded;charset=UTF-8" = SrcForm
-                      /\ http_source "DELETE" "text/plain" = SrcQuery.
+                      /\ http_source "DELETE" "text/plain" = SrcQuery
+                      /\ http_source "PATCH" " Application/JSON ;charset=utf-8" = SrcJSON.
 Proof. repeat split. Qed.
